@@ -269,6 +269,10 @@ mut("tr_revert_reserved_subcomp_check", "pymtl3/passes/backends/verilog/translat
 mut("c15_revert_paramtreenode_import", "pymtl3/dsl/Component.py",
     "from .NamedObject import NamedObject, ParamTreeNode", "from .NamedObject import NamedObject", ["C15"])
 
+mut("dynsched_revert_once_cycle_message", "pymtl3/passes/sim/DynamicSchedulePass.py",
+    "f\"in 'top.{repr(hosts[y])[2:]}')\" if y in hosts else",
+    "f\"in 'top.{repr(top.get_update_block_host_component(y))[2:]}')\" if True else", ["C11"])
+
 
 def load_extra():
   p = os.path.join(VERIF, "tools", "mutants_extra.json")
